@@ -122,6 +122,9 @@ impl TransactionalMemory {
         let st = self.state.lock().unwrap();
         (st.header.recovery_required, st.header.two_phase_commit)
     }
+    pub(crate) fn verif_set_primary(&self, p: usize) {
+        self.state.lock().unwrap().header.verif_set_primary_index(p);
+    }
     pub(crate) fn verif_set_two_phase(&self, v: bool) {
         self.state.lock().unwrap().header.two_phase_commit = v;
     }
